@@ -5,7 +5,29 @@ import os
 VERIF = os.path.dirname(os.path.dirname(os.path.abspath(__file__)))
 
 # id -> (technique, level text, level note, design ref)
+_LAY = ("bounded-exhaustive exploration of label multisets x engine configurations, each executed on the real "
+        "Force.compute(); ")
 CLAIMED = {
+    "C01": (_LAY + "all-pairs separation/order invariant",
+            "Small-scope exhaustive: every multiset of <=4 (thorough <=5) labels over a 26-39 letter alphabet x 13-27 engine "
+            "configurations, plus (thorough) every cluster size 1..200 on parametric families; the oracle is the property's own "
+            "inequality evaluated on every pair of every layer. Exhaustive inside the bound, silent about inputs outside the grids.",
+            "trusted: the invariant evaluator in mc/layout.py; grids stated in evidence.bounds", "DESIGN.md section 4 C01"),
+    "C02": (_LAY + "comparison with an exact isotonic least-squares reference model (PAVA over rationals)",
+            "Same exploration as C01; every fitting layer is compared with the exact optimum computed independently in rational "
+            "arithmetic (cross-checked against an active-set QP in setup). Exhaustive inside the bound.",
+            "trusted: mc/oracles.py iso_place (self-tested against qp_exact in ./setup)", "DESIGN.md section 4 C02"),
+    "C03": (_LAY + "bounds/spill invariant incl. per-input exact-fit, just-short and grossly-short bounds",
+            "Same exploration as C01 with input-dependent bounds that make a layer fit exactly, miss by one unit, or miss grossly; "
+            "invariant on edges vs bounds, full separation and spill otherwise.",
+            "trusted: exact fit computation in mc/layout.py", "DESIGN.md section 4 C03"),
+    "C04": ("bounded-exhaustive exploration: full product of distributor options x label multisets on the real "
+            "Distributor.distribute, plus the engine scope through Force.compute()/getLayers(); structural invariant",
+            "Every multiset of <=3 (thorough <=4; <=6 reduced) labels x all 540 distributor option sets, structural invariant "
+            "(conservation, contiguity, complete stub chains, payload, stub width, single-layer and capacity clauses), and the "
+            "engine's reported layering on the C01 scope.",
+            "trusted: the structural invariant in mc/props/c04.py; boundary-ambiguous capacity cases are counted, not judged",
+            "DESIGN.md section 4 C04"),
     "C20": ("exhaustive enumeration of the finite domain (all indices 0..10^6, all hex codes) on the real functions",
             "Complete enumeration: every index 0..10^6 against the shortlex sequence, every 3-digit code and (thorough) "
             "every 6-digit code in both cases against integer parsing. Within the stated domain this is total coverage.",
